@@ -248,7 +248,36 @@ def body_big_mesh(ctx):
     ctx.check(ok, 'face-edge table agrees with the face-node table under the edge numbering in use')
 
 
+def body_supplied_verbatim(ctx, mesh):
+    """Supplied tables whose fill value sits right at (or next to) the element counts, and whose rows are written in
+    another column order than a derivation would give (each face starts at its closing edge): used as given."""
+    from emsarray.conventions.ugrid import Mesh2DTopology
+    nodes, faces = builders.MESHES[mesh]
+    nedges = len(builders.mesh_edges(faces)[0])
+    nn, nf = len(nodes), len(faces)
+    # (one fill value for every table of the file: it must not be a valid index in any of them)
+    M = max(nedges, nn, nf)
+    combos = [(0, M), (1, M + 1), (1, 0), (0, -1), (0, 999999), (0, M + 1), (1, M + 2), (0, 2 ** 31 - 1)]
+    si, fv = combos[int(ctx.int('combination', 0, len(combos) - 1))]
+    ds = builders.ugrid(mesh, supply=('edge_node', 'face_edge'), fill='attr', fill_value=fv, start_index=si, with_edges=True)
+    table = numpy.array(ds['face_edge'].values, copy=True)
+    want = []
+    for r in range(table.shape[0]):
+        valid = [int(v) for v in table[r] if int(v) != fv]
+        rot = valid[-1:] + valid[:-1]
+        table[r, :len(rot)] = rot
+        want.append([v - si for v in rot])
+    ds['face_edge'] = (ds['face_edge'].dims, table, dict(ds['face_edge'].attrs))
+    topo = Mesh2DTopology(ds)
+    ctx.check(rows(topo.face_edge_array) == want, 'a supplied face-edge table is used as given')
+    ctx.check(rows(topo.face_node_array) == [list(f) for f in faces], 'face-node table normalised to zero-based, face dimension first, fill masked')
+    edges_ref = builders.mesh_edges(faces)[0]
+    ctx.check(rows(topo.edge_node_array) == [list(e) for e in edges_ref], 'a supplied edge-node table is used as given (order and orientation)')
+
+
 def cases(tier):
+    for mesh in ('tqp', 'qqqtt', 'block'):
+        yield Case(f'supplied-verbatim:{mesh}', body_supplied_verbatim, dict(mesh=mesh), max_paths=20)
     q = tier == 'quick'
     yield Case('topology:big-strip:50000-nodes', body_big_mesh, dict(), max_paths=4)
     for mesh in ('tqp', 'tq'):
